@@ -10,9 +10,10 @@ SPEC = {
     "rule": "case = one history: a random tree (depth<=8, fan-out up to 60 via wide grammars, open or closed, both epsilon "
             "encodings) followed by 4-25 operations from {replace_path(+-retain_id), substitute, expand_one_step, fuzzer "
             "expansion, new_ids, to/from_parse_tree}, each followed by a random-order subset of observations compared with "
-            "the nested-list model; distinct = distinct (grammar, operation-kind sequence, tree-size bucket) shapes; a "
+            "the nested-list model (including near-copy pairs - one leaf flipped open<->closed-empty, one label changed, one "
+            "child dropped - on which structurally_equal => equal structural_hash is judged in both directions); distinct = distinct (grammar, operation-kind sequence, tree-size bucket) shapes; a "
             "history counts only if >= 1 mutating operation and >= 5 observations were judged",
-    "minimum": {"quick": {"judged": 800, "observations": 20000, "ops": 4000, "wide_histories": 30},
+    "minimum": {"quick": {"judged": 800, "observations": 20000, "ops": 4000, "wide_histories": 30, "near_pairs": 3000},
                 "thorough": {"judged": 20000, "observations": 500000}},
     "assumptions": ["the model reads DerivationTree.value/.children/.id as ground truth of the structure; every other "
                     "method is an observation", "node ids are unique within every generated history"],
@@ -37,7 +38,7 @@ def observe(ctx, t, m, rng, n_obs):
     """t: DerivationTree, m: model of the same tree. Random subset/order of observations."""
     allp = list(TM.walk(m))
     obs = ["tostr", "str", "open", "paths", "get", "validp", "find", "filter", "leaves", "openleaves", "trie", "subtrie",
-           "len", "shash", "eqhash", "unjudged"]
+           "len", "shash", "eqhash", "near", "near", "unjudged"]
     rng.shuffle(obs)
     for o in obs[:n_obs]:
         ctx.count("observations")
@@ -111,6 +112,38 @@ def observe1(ctx, t, m, rng, o, allp):
             from islamon.bridge import to_dt
             c2 = to_dt(TM.strip_ids(m), keep_ids=False)
             eq(c2.structural_hash(), t.structural_hash(), "structural_hash of a rebuilt equal structure")
+        elif o == "near":
+            # near-copies: one leaf flipped between "open" and "closed with no children", one label changed, one child list
+            # shortened. Whatever structurally_equal answers for the pair, "equal" must come with equal structural hashes.
+            import copy
+            from islamon.bridge import to_dt
+            v = copy.deepcopy(TM.strip_ids(m))
+            vp = list(TM.walk(v))
+            kind = rng.choice(["flip_leaf", "flip_leaf", "relabel", "shorten", "same"])
+            if kind == "flip_leaf":
+                c = [n for _, n in vp if is_nt(n[0]) and not n[1]]
+                if c:
+                    n = rng.choice(c)
+                    n[1] = [] if n[1] is None else None
+            elif kind == "relabel":
+                n = rng.choice(vp)[1]
+                n[0] = n[0] + "x" if not is_nt(n[0]) else "<" + n[0][1:-1] + "_>"
+            elif kind == "shorten":
+                c = [n for _, n in vp if n[1]]
+                if c:
+                    rng.choice(c)[1].pop()
+            other = to_dt(v, keep_ids=False)
+            same_model = TM.strip_ids(TM.snap(other)) == TM.strip_ids(m)
+            for a, b in ((t, other), (other, t)):
+                se = a.structurally_equal(b)
+                ctx.count("near_pairs")
+                if se:
+                    ctx.count("near_pairs_equal")
+                    eq(a.structural_hash(), b.structural_hash(), f"structurally_equal trees ({kind}) but structural_hash")
+                    if not same_model:
+                        ctx.count("near_pairs_equal_but_model_differs")
+                elif same_model:
+                    raise Mismatch(f"structurally_equal False for identical structure ({kind})")
         elif o == "eqhash":
             from islamon.bridge import to_dt
             c = to_dt(m, keep_ids=True)
